@@ -4,7 +4,8 @@ import sir
 import emit
 import prectables as pt
 
-RULE = ("C02.holes: every hole of every write!/format! in the emitter modules is typed through MIR and classified by type and "
+RULE = ("C02.balance: on every control-flow path of every emitter the written text is bracket-balanced and has no empty argument (`,,` / `(,` inside parentheses); local string buffers are tracked separately and inlined where pasted (lib/dyck.py). "
+        "C02.holes: every hole of every write!/format! in the emitter modules is typed through MIR and classified by type and "
         "producer: generated identifier (JsIdent), integer/bool, gen_lit_str()/gen_lit_float() result, string literal(s), a buffer "
         "produced by analysed emission, user JavaScript by contract (script bodies, extra runtime string, runtime constants), or a "
         "parser-validated identifier name (fields only ever filled from try_parse_field_name, whose alphabet is read from the source "
